@@ -123,25 +123,32 @@ CONTAINERS = {"ref": ["box", "ref", "mut", "arcsome", "ctxbox"], "pinref": ["box
               "mut": ["box", "mut", "ctxbox"], "pinmut": ["box", "mut", "ctxbox"], "own": ["box", "ctxbox"]}
 
 
-def call_expr(recv, target, argx):
+def call_expr(recv, target, argx, mname="m"):
     a = argx
-    if recv == "ref":
-        return "%s.m(%s)" % (target, a)
-    if recv == "mut":
-        return "%s.m(%s)" % (target, a)
-    if recv == "own":
-        return "%s.m(%s)" % (target, a)
+    if recv in ("ref", "mut", "own"):
+        return "%s.%s(%s)" % (target, mname, a)
     if recv == "pinref":
-        return "Pin::new(&%s).m(%s)" % (target, a)
-    return "Pin::new(&mut %s).m(%s)" % (target, a)
+        return "Pin::new(&%s).%s(%s)" % (target, mname, a)
+    return "Pin::new(&mut %s).%s(%s)" % (target, mname, a)
+
+
+def method_sig(d, mname="m"):
+    aty = ARG_TY[d["arg"]]
+    rty = RET_TY[d["ret"]]
+    return "fn %s(%s%s)%s" % (mname, RECV_DECL[d["recv"]], (", a: " + aty) if aty else "", (" -> " + rty) if rty else "")
 
 
 def render_trait(k, d):
-    aty = ARG_TY[d["arg"]]
-    rty = RET_TY[d["ret"]]
-    sig = "fn m(%s%s)%s" % (RECV_DECL[d["recv"]], (", a: " + aty) if aty else "", (" -> " + rty) if rty else "")
+    sig = method_sig(d)
     ir = "    #[int_result]\n" if d["ir"] else ""
     return "    #[cglue_trait]\n%s    pub trait T {\n        %s;\n    }\n" % (ir, sig), sig
+
+
+def method_impl(d, sig, salt=0):
+    body = ARG_BODY[d["arg"]]
+    return ("        %s {\n            self.check();\n            %s\n            let s = self.st.get();\n"
+            "            let s2 = (s * 3 + d.rem_euclid(7) + 1 + %d) %% 1000003;\n            self.st.set(s2);\n            log(s2);\n            %s\n        }\n"
+            % (sig, body, salt, ret_expr(d["ret"], d["recv"])))
 
 
 def render_def(k, d):
@@ -149,10 +156,16 @@ def render_def(k, d):
     out.append("pub mod d%d {\n    use super::*;\n" % k)
     tr, sig = render_trait(k, d)
     out.append(tr)
-    body = ARG_BODY[d["arg"]]
-    out.append("    impl T for Imp {\n        %s {\n            self.check();\n            %s\n            let s = self.st.get();\n            let s2 = (s * 3 + d.rem_euclid(7) + 1) %% 1000003;\n            self.st.set(s2);\n            log(s2);\n            %s\n        }\n    }\n" % (sig, body, ret_expr(d["ret"], d["recv"])))
+    out.append("    impl T for Imp {\n%s    }\n" % method_impl(d, sig))
     # driver
     out.append("    pub fn run(rep: &mut Report) {\n")
+    out.append(driver_blocks(k, d, "m", CONTAINERS[d["recv"]]))
+    out.append("    }\n}\n")
+    return "".join(out)
+
+
+def driver_blocks(k, d, mname, containers):
+    out = []
     for v in (0, 1):
         for s0 in (2, 5):
             setup, argx, post = arg_setup(d["arg"], v)
@@ -162,7 +175,7 @@ def render_def(k, d):
                 b.append("            %s\n" % mk)
                 b.append("            %s\n" % setup)
                 b.append("            let _ = take_log();\n")
-                b.append("            let%s r = %s;\n" % (" mut" if d["ret"] == "mutslice" else "", call_expr(d["recv"], target, argx)))
+                b.append("            let%s r = %s;\n" % (" mut" if d["ret"] == "mutslice" else "", call_expr(d["recv"], target, argx, mname)))
                 b.append("            %s\n" % RET_DIGEST[d["ret"]])
                 if d["ret"] == "str":
                     b.append("            let _ = str_ptr;\n")
@@ -175,7 +188,7 @@ def render_def(k, d):
             mutkw = "mut " if d["recv"] in ("mut", "pinmut") else ""
             # direct call
             out.append(block("direct", "let %simp = Imp::new(%d); let imp_addr = &imp as *const Imp as i64;" % (mutkw, s0), "imp", ""))
-            for cont in CONTAINERS[d["recv"]]:
+            for cont in containers:
                 om = "mut " if d["recv"] in ("mut", "pinmut") else ""
                 if cont == "box":
                     mk = "let b = Box::new(Imp::new(%d)); let imp_addr = &*b as *const Imp as i64; let %sobj = trait_obj!(CBox::<Imp>::from(b) as T);" % (s0, om)
@@ -192,6 +205,23 @@ def render_def(k, d):
                 if cont == "ctxbox":
                     drop_after += " rep.ctx(%d, std::sync::Arc::strong_count(&keep));" % k
                 out.append(block(cont, mk, "obj", drop_after))
+    return "".join(out)
+
+
+def render_combo(k, ds):
+    """a multi-method trait: three definitions of the grammar in one vtable, so that a call reaching the
+    wrong slot changes the logged state trajectory (each method adds its own salt)"""
+    out = ["pub mod d%d {\n    use super::*;\n    #[cglue_trait]\n    pub trait T {\n" % k]
+    for j, d in enumerate(ds):
+        out.append("        %s;\n" % method_sig(d, "m%d" % j))
+    out.append("    }\n    impl T for Imp {\n")
+    for j, d in enumerate(ds):
+        out.append(method_impl(d, method_sig(d, "m%d" % j), salt=17 * (j + 1)))
+    out.append("    }\n    pub fn run(rep: &mut Report) {\n")
+    # containers every receiver of the trait admits
+    conts = [c for c in CONTAINERS["ref"] if all(c in CONTAINERS[d["recv"]] for d in ds)]
+    for j, d in enumerate(ds):
+        out.append(driver_blocks(k * 10 + j, d, "m%d" % j, conts))
     out.append("    }\n}\n")
     return "".join(out)
 
@@ -351,6 +381,16 @@ def main():
             parts.append(render_def(k, e["d"]))
             calls.append("    d%d::run(&mut rep);" % k)
             index.append({"k": k, "d": e["d"], "sig": e["sig"]})
+        # multi-method traits built from consecutive triples of non-int_result definitions
+        plain = [e["d"] for e in defs if not e["d"]["ir"]]
+        ncombo = 0
+        base = 100000
+        for i in range(0, len(plain) - 2, 3):
+            ds = plain[i:i + 3]
+            parts.append(render_combo(base + ncombo, ds))
+            calls.append("    d%d::run(&mut rep);" % (base + ncombo))
+            index.append({"k": base + ncombo, "combo": ds})
+            ncombo += 1
         parts.append(MAIN % ("\n".join(calls), len(defs)))
         open(os.path.join(out_dir, "src", "main.rs"), "w").write("".join(parts))
         open(os.path.join(out_dir, "Cargo.toml"), "w").write('''[package]
